@@ -71,6 +71,8 @@ func checkC04(c *Ctx) {
 	c12ScenariosRule(c, "R04q", func(fn, rule string) bool { return fn == "validateOneofFlatten" })
 	r.Rule("R04r", "an emitted encoder writes one entry for every element of the collection it ranges over: inside the loop the store is guarded by nil tests only (an entry skipped for being empty cannot be restored by the decoder)", 2)
 	encoderKeepsEveryElement(c, "R04r")
+	r.Rule("R04s", "a slice or map that an emitted decoder fills inside a loop and stores per entry is declared inside the loop (a target declared once is aliased by every entry)", 1)
+	decodeTargetsPerIteration(c, "R04s")
 
 	type siteAgg struct {
 		pos  string
@@ -666,4 +668,125 @@ func wrapperKeyAlwaysRemoved(c *Ctx, rid string) {
 		return
 	}
 	r.OKd(rid, "wrapper-key deletions inspected", "", map[string]any{"deletes": nDel, "conditional_on_content": len(reported)})
+}
+
+// decodeTargetsPerIteration — R04s. In every emitted UnmarshalJSON: a slice or map variable that json.Unmarshal fills inside
+// a loop and whose value is then stored into the message (one wrapper per map key, one element per list entry) must be
+// declared inside the loop body. Declared once outside, json.Unmarshal reuses its backing array on every iteration, so all
+// stored values alias one array and every entry ends up with the contents of the last one decoded.
+func decodeTargetsPerIteration(c *Ctx, rid string) {
+	r := c.R
+	nTargets := 0
+	reported := map[string]bool{}
+	for _, ri := range c.goUnitRoots() {
+		ex := c.ExploreT(ri.Fn, 6000)
+		for _, v := range ex.Variants {
+			for _, u := range v.Units {
+				fset, f, err := ParseUnit(u)
+				if err != nil {
+					continue
+				}
+				gen := func(p token.Pos) string {
+					line := fset.Position(p).Line
+					if line >= 1 && line <= len(u.Lines) {
+						return c.P.Pos(u.Lines[line-1].Pos)
+					}
+					return ""
+				}
+				for _, d := range f.Decls {
+					fd, ok := d.(*ast.FuncDecl)
+					if !ok || fd.Body == nil || fd.Name.Name != "UnmarshalJSON" {
+						continue
+					}
+					// declarations of slice / map typed locals: name -> position
+					type decl struct {
+						pos token.Pos
+					}
+					decls := map[string][]decl{}
+					ast.Inspect(fd.Body, func(nd ast.Node) bool {
+						if ds, ok := nd.(*ast.DeclStmt); ok {
+							if gd, ok := ds.Decl.(*ast.GenDecl); ok && gd.Tok == token.VAR {
+								for _, sp := range gd.Specs {
+									vs := sp.(*ast.ValueSpec)
+									isAgg := false
+									switch t := vs.Type.(type) {
+									case *ast.ArrayType:
+										isAgg = t.Len == nil
+									case *ast.MapType:
+										isAgg = true
+									}
+									if isAgg {
+										for _, nm := range vs.Names {
+											decls[nm.Name] = append(decls[nm.Name], decl{nm.Pos()})
+										}
+									}
+								}
+							}
+						}
+						return true
+					})
+					if len(decls) == 0 {
+						continue
+					}
+					ast.Inspect(fd.Body, func(nd ast.Node) bool {
+						var body *ast.BlockStmt
+						switch x := nd.(type) {
+						case *ast.RangeStmt:
+							body = x.Body
+						case *ast.ForStmt:
+							body = x.Body
+						default:
+							return true
+						}
+						ast.Inspect(body, func(m ast.Node) bool {
+							call, ok := m.(*ast.CallExpr)
+							if !ok || len(call.Args) != 2 {
+								return true
+							}
+							if fun := types.ExprString(call.Fun); fun != "json.Unmarshal" && fun != "protojson.Unmarshal" {
+								return true
+							}
+							ue, ok := ast.Unparen(call.Args[1]).(*ast.UnaryExpr)
+							if !ok || ue.Op != token.AND {
+								return true
+							}
+							id, ok := ast.Unparen(ue.X).(*ast.Ident)
+							if !ok || len(decls[id.Name]) == 0 {
+								return true
+							}
+							nTargets++
+							// the nearest declaration of that name ahead of the call
+							var dpos token.Pos
+							for _, dd := range decls[id.Name] {
+								if dd.pos < call.Pos() && dd.pos > dpos {
+									dpos = dd.pos
+								}
+							}
+							if dpos >= body.Pos() && dpos < body.End() {
+								return true // declared per iteration
+							}
+							// is the value stored in this loop (any other mention of the identifier than &v)?
+							stored := false
+							ast.Inspect(body, func(q ast.Node) bool {
+								if q2, ok := q.(*ast.Ident); ok && q2.Name == id.Name && q2 != id {
+									stored = true
+								}
+								return true
+							})
+							if stored {
+								k := fmt.Sprintf("%s *%s: decode target %s is declared per iteration", pkgShort(ri.Pkg), ri.Suffix, holeFree(id.Name))
+								if !reported[k] {
+									reported[k] = true
+									r.Bad(rid, k, gen(call.Pos()), "the emitted UnmarshalJSON declares the slice/map `"+holeFree(id.Name)+"` once, ahead of the loop, decodes every entry into it with "+types.ExprString(call.Fun)+" and stores it per entry: json.Unmarshal reuses the backing array, so all entries share one array and read back as the last entry decoded", nil)
+								}
+							}
+							return true
+						})
+						return true
+					})
+				}
+			}
+		}
+	}
+	r.OKd(rid, "aggregate decode targets filled inside loops inspected", "", map[string]any{"targets_in_loops": nTargets, "declared_outside_and_stored": len(reported)})
 }
